@@ -15,6 +15,7 @@ def mk(rng, D, P, shp, cplx=False, positive=True):
 
 def constants(P, shp):
     cs = [('int', 2), ('one', 1), ('one[float]', 1.0), ('zero', 0), ('minus one', -1), ('float', 1.5), ('complex', 1 + 2j), ('np.float64', numpy.float64(0.75)), ('np.int64', numpy.int64(3)), ('np.complex128', numpy.complex128(0.5 + 1j)), ('np.float32', numpy.float32(0.5))]
+    cs += [('arr[1,1,1]', numpy.array([[[2.5]]])), ('arr[1,1]', numpy.array([[3.]]))]          # ONE element but more dimensions than the polynomial: the result has the broadcast shape
     if shp:
         n = int(numpy.prod(shp))
         cs += [('arr[same]', (numpy.arange(1., n + 1) / 2).reshape(shp)), ('arr[int]', numpy.arange(1, n + 1).reshape(shp)), ('arr[cplx]', (numpy.arange(1., n + 1) * (1 + 1j)).reshape(shp)),
